@@ -58,6 +58,12 @@ macro_rules! write_digits {
         // Use `BITS` for all bases since `generic_const_exprs` is not yet stable.
         let mut buffer = DisplayBuffer::<BITS>::new();
         for (i, spigot) in $self.to_base_be(<$base>::MAX).enumerate() {
+            #[cfg(feature = "recmo_uint_verif")]
+            {
+                if i > 0 {
+                    crate::verif_hooks::hit(99);
+                }
+            }
             write!(
                 buffer,
                 concat!("{:0width$", $base_char, "}"),
